@@ -259,7 +259,7 @@ def check_csv(pt):
             vio.append(V("csv-field-count", pt, nc, rec))
             break
         for j, field in enumerate(rec):
-            x = np.asarray(las.curves[j].data)[i]
+            x = np.asarray(list(las.curves)[j].data)[i]
             if isinstance(x, (str, np.str_)):
                 ok = field == str(x)
             elif _isnan(x):
